@@ -967,7 +967,7 @@ pub fn plan(o: PlanOpts) -> BoxedStrategy<Plan> {
                 4 => [2, 0, 1],
                 _ => [2, 1, 0],
             };
-            spec.sep = misc[2] % 6;
+            spec.sep = misc[2] % 9;
             spec.loose_escapes = misc[3] % 2 == 0;
             spec.auth_first = misc[3] % 3 == 0;
             spec.date_header_name = spell_header_name("x-amz-date", misc[0]);
